@@ -56,4 +56,9 @@ CHECKS = {
   text='Real runs (implicit, IMEX, IMEX-mass sweepers; 4 residual types; 1-2 levels; 1-4 parallel steps; restol reached at iteration 0,1,..,never): at each post_sweep/post_iteration/post_step the defect is recomputed from the node values held (f re-evaluated) and compared with status.residual and the logged stats; '
        'stopping soundness, iter <= maxiter, iter == callbacks == logged niter. Scripted residual tables: all {below,above}^(K+1) sequences for K<=3 (quick)/4 x 1-3 steps x coupling modes, all pairs across two consecutive blocks, generated long non-monotone multi-block tables.',
   note='At iteration 0 the identity is asserted only for the spread guess (copy/zero guesses store f(u0,t0)/0 by construction). Known finding F3b (zero-sweep finish at iteration 0, same root cause as F3); F9 (mass sweeper ignored residual_type) fixed.'),
+ 'C04': dict(
+  technique='exhaustive enumeration of node sets x preconditioners x iteration counts (and of all Runge-Kutta classes by reflection) with a Taylor-coefficient oracle extracted from the real step function on a complex circle',
+  text='One real controller step on the shipped test equations with 128 values z on a circle gives R(z); its Taylor coefficients (FFT) must equal 1/m! through min(k,p) for every node family x type x M (<=4 quick, <=7 thorough), implicit/explicit/IMEX preconditioner names, k up to p+2, both end-point modes; '
+       'converged iterations must equal the collocation stability function pointwise; every RungeKutta/RungeKuttaIMEX class must reach its documented order (IMEX with 4 splittings) and primary-minus-embedded must vanish below get_update_order().',
+  note='Only ">= order" is asserted. Coefficients whose rounding term exceeds 2% of 1/m! are counted as unresolved (affects m>=13 only). Radius 0.4 x smallest pole of the sweep. A new RK class without an entry in the order table is reported, not skipped.'),
 }
